@@ -235,7 +235,41 @@ def gen_quadratic(r, sp, names, params=None):
     return parts[0] if len(parts) == 1 else ["chain", "+", parts]
 
 
+def view_pairs(sp):
+    """Pairs of DIFFERENT views of one container that have the same length (and, as it happens,
+    the same generated name): full-range slice vs reversed view, neighbouring partial row views."""
+    out = []
+    for d in sp["vars"]:
+        if d["kind"] == "vector" and d["n"] >= 2:
+            out.append((["vslice", d["name"], 0, d["n"]], ["vrev", d["name"]]))
+            if d["n"] >= 3:
+                out.append((["vslice", d["name"], 0, d["n"] - 1], ["vslice", d["name"], 1, d["n"]]))
+        elif d["kind"] == "matrix" and d["cols"] >= 2:
+            out.append((["mrowslice", d["name"], 0, 0, d["cols"] - 1], ["mrowslice", d["name"], 0, 1, d["cols"]]))
+    return out
+
+
+def gen_bilinear(r, sp):
+    """a' Q b over two different views of one container."""
+    vps = view_pairs(sp)
+    if not vps:
+        return None
+    a, b = r.choice(vps)
+    n = S.vec_len(sp, a)
+    Q = [[0.0] * n for _ in range(n)]
+    for i in range(n):
+        Q[i][i] = r.choice([1.0, 1.0, 2.0])
+    if n >= 2 and r.random() < 0.4:
+        Q[0][1] = r.choice([0.5, -0.5])
+    return ["bilin", a, Q, b]
+
+
 def gen_vecquad(r, sp):
+    if r.random() < 0.2:
+        e = gen_bilinear(r, sp)
+        if e is not None:
+            names = sorted(S.mentioned(sp, e), key=S.natural_key)
+            return ["+", e, gen_quadratic(r, sp, names)]
     vhs = vec_handles(sp["vars"])
     if not vhs:
         return None
@@ -327,6 +361,10 @@ def gen_nl_con(r, sp, names):
     k = r.random()
     a = ref_of(sp, r.choice(names))
     b = ref_of(sp, r.choice(names))
+    if r.random() < 0.15:
+        e = gen_bilinear(r, sp)
+        if e is not None:
+            return {"k": "s", "lhs": e, "sense": r.choice([">=", "<="]), "rhs": ["num", r.choice([0.5, 1.0, 2.0])]}
     if r.random() < 0.3:
         # a constraint that is undefined (NaN) or infinite on part of the box
         f = r.choice(["log", "sqrt", "log"])
